@@ -2,30 +2,72 @@
    sequence driven on the real RtpsStatefulWriter / RtpsStatefulReader, and the
    implementation's observed trace + final reader changes. *)
 From DustDDS Require Export Base.Machine Proto.FragModel.
+From Coq Require Import Uint63.
 Open Scope Z_scope.
+
+(* ---------------------------------------------------------------- big data
+   Payloads and fragments above 1024 bytes are not written out in the case files
+   (coqc needs > 100 us per numeral): the input payload is a pattern computed in
+   Coq, and the implementation's data is reported by the harness as
+   (length, 63-bit FNV-1a digest), which is compared with the digest of the
+   model's bytes.  Primitive 63-bit integers are used for that digest only. *)
+
+Fixpoint patb' (n : nat) (x : int) : bytes :=
+  match n with
+  | O => []
+  | S n' => Uint63.to_Z (PrimInt63.land (PrimInt63.lsr x 33) 255)
+            :: patb' n' (PrimInt63.add (PrimInt63.mul x 6364136223846793005) 1442695040888963407)
+  end.
+Definition patb (seed len : Z) : bytes := patb' (Z.to_nat len) (Uint63.of_Z seed).
+
+Definition fnv (b : bytes) : int :=
+  fold_left (fun h x => PrimInt63.mul (PrimInt63.lxor h (Uint63.of_Z x)) 1099511628211) b 1469598103934665603%uint63.
+
+Inductive odata : Type := Raw (b : bytes) | Dig (len h : Z).
+
+Definition od_matches (b : bytes) (o : odata) : bool :=
+  match o with
+  | Raw b' => bytes_eqb b b'
+  | Dig l h => (blen b =? l) && (Uint63.to_Z (fnv b) =? h)
+  end.
+Definition od_len (o : odata) : Z := match o with Raw b => blen b | Dig l _ => l end.
+
+(* observed counterparts of frag / wire / obs *)
+Record ofrag : Type := mkofrag {
+  of_rid : Z; of_sn : Z; of_start : Z; of_nsub : Z; of_fsize : Z; of_dsize : Z; of_data : odata }.
+Inductive owire : Type := VData (rid sn : Z) (d : odata) | VFrag (fr : ofrag) | VGap (sn : Z).
+Inductive oobs : Type :=
+| VSent (ws : list owire)
+| VCount (n : Z)
+| VReply (x : option (acknack * option nackfrag))
+| VResp (ws : list owire) (n : Z).
 
 Record C05_case : Type := mkC05 {
   c_rel : bool; c_nreaders : Z; c_f : Z;
   c_ops : list op;
   c_fair : bool;   (* the schedule ends with enough loss-free repair rounds: everything must arrive *)
-  c_out : res (list obs * list (Z * bytes))
+  c_out : res (list oobs * list (Z * odata))
 }.
 
 (* ---------------------------------------------------------------- equality *)
 
+Definition frag_matches (a : frag) (b : ofrag) : bool :=
+  (fr_rid a =? of_rid b) && (fr_sn a =? of_sn b) && (fr_start a =? of_start b) &&
+  (fr_nsub a =? of_nsub b) && (fr_fsize a =? of_fsize b) && (fr_dsize a =? of_dsize b) &&
+  od_matches (fr_data a) (of_data b).
 
-Definition wire_eqb (a b : wire) : bool :=
+Definition wire_matches (a : wire) (b : owire) : bool :=
   match a, b with
-  | WData r s p, WData r' s' p' => (r =? r') && (s =? s') && bytes_eqb p p'
-  | WFrag x, WFrag y => frag_eqb x y
-  | WGap s, WGap s' => s =? s'
+  | WData r s p, VData r' s' p' => (r =? r') && (s =? s') && od_matches p p'
+  | WFrag x, VFrag y => frag_matches x y
+  | WGap s, VGap s' => s =? s'
   | _, _ => false
   end.
 
-Fixpoint list_eqb {A} (e : A -> A -> bool) (a b : list A) : bool :=
+Fixpoint list_matches {A B} (e : A -> B -> bool) (a : list A) (b : list B) : bool :=
   match a, b with
   | [], [] => true
-  | x :: a', y :: b' => e x y && list_eqb e a' b'
+  | x :: a', y :: b' => e x y && list_matches e a' b'
   | _, _ => false
   end.
 
@@ -43,16 +85,16 @@ Definition nf_eqb (a b : nackfrag) : bool :=
 Definition reply_eqb (a b : acknack * option nackfrag) : bool :=
   ack_eqb (fst a) (fst b) && opt_eqb nf_eqb (snd a) (snd b).
 
-Definition obs_eqb (a b : obs) : bool :=
+Definition obs_matches (a : obs) (b : oobs) : bool :=
   match a, b with
-  | BSent x, BSent y => list_eqb wire_eqb x y
-  | BCount n, BCount m => n =? m
-  | BReply x, BReply y => opt_eqb reply_eqb x y
-  | BResp x n, BResp y m => list_eqb wire_eqb x y && (n =? m)
+  | BSent x, VSent y => list_matches wire_matches x y
+  | BCount n, VCount m => n =? m
+  | BReply x, VReply y => opt_eqb reply_eqb x y
+  | BResp x n, VResp y m => list_matches wire_matches x y && (n =? m)
   | _, _ => false
   end.
 
-Definition change_eqb (a b : Z * bytes) : bool := (fst a =? fst b) && bytes_eqb (snd a) (snd b).
+Definition change_matches (a : Z * bytes) (b : Z * odata) : bool := (fst a =? fst b) && od_matches (snd a) (snd b).
 
 Definition C05_run (c : C05_case) : res (list obs * list (Z * bytes)) :=
   x <- run (s_init (c_rel c) (c_nreaders c) (c_f c)) (c_ops c) ;;
@@ -60,7 +102,7 @@ Definition C05_run (c : C05_case) : res (list obs * list (Z * bytes)) :=
 
 Definition C05_model_ok (c : C05_case) : bool :=
   match C05_run c, c_out c with
-  | Ok (o, ch), Ok (o', ch') => list_eqb obs_eqb o o' && list_eqb change_eqb ch ch'
+  | Ok (o, ch), Ok (o', ch') => list_matches obs_matches o o' && list_matches change_matches ch ch'
   | Panic _, Panic _ => true
   | Err a, Err b => a =? b
   | _, _ => false
@@ -68,17 +110,6 @@ Definition C05_model_ok (c : C05_case) : bool :=
 
 (* ------------------------------------------------------------------ oracle
    The property, judged on the IMPLEMENTATION's trace only (no model run). *)
-
-(* payloads written, in order: sample k (1-based) is the k-th OWrite *)
-Fixpoint written (ops : list op) : list bytes :=
-  match ops with
-  | [] => []
-  | OWrite p :: t => p :: written t
-  | _ :: t => written t
-  end.
-
-Definition nth_written (ws : list bytes) (sn : Z) : option bytes :=
-  if 1 <=? sn then nth_error ws (Z.to_nat (sn - 1)) else None.
 
 (* sns a hand-made fragment speaks for: no claim is made about those *)
 Fixpoint foreign_sns (ops : list op) : list Z :=
@@ -92,46 +123,44 @@ Definition zmem (x : Z) (l : list Z) : bool := existsb (Z.eqb x) l.
 
 (* (1) byte identity and order: every change the reader holds for a written sn carries exactly the
    written payload; sns strictly increase (no duplicate delivery) *)
-Fixpoint identical_from (ws : list bytes) (foreign : list Z) (prev : Z) (ch : list (Z * bytes)) : bool :=
+Fixpoint identical_from (ws : list bytes) (foreign : list Z) (prev : Z) (ch : list (Z * odata)) : bool :=
   match ch with
   | [] => true
   | (sn, d) :: t =>
       (prev <? sn) &&
       (if zmem sn foreign then true
-       else match nth_written ws sn with Some p => bytes_eqb p d | None => false end) &&
+       else match nth_written ws sn with Some p => od_matches p d | None => false end) &&
       identical_from ws foreign sn t
   end.
 
 (* (2) what a writer emits for one sample towards one reader: DATA with p, or fragments numbered
    1..ceil(len/f), each of f bytes but the last, announcing f and len, concatenating to p *)
-Fixpoint frags_ok (rid sn f len : Z) (k : Z) (ws : list wire) (rest : bytes) : option (list wire) :=
+Fixpoint frags_ok (rid sn f len : Z) (k : Z) (ws : list owire) (rest : bytes) : option (list owire) :=
   (* consumes the fragments k, k+1, ... of this sample; returns the remaining wire items *)
   match ws with
-  | WFrag fr :: t =>
-      if (fr_rid fr =? rid) && (fr_sn fr =? sn) then
-        if (fr_start fr =? k) && (fr_nsub fr =? 1) && (fr_fsize fr =? f) && (fr_dsize fr =? len)
-           && bytes_eqb (fr_data fr) (firstn (Z.to_nat f) rest)
-           && negb (match fr_data fr with [] => true | _ => false end)
-        then
-          let rest' := skipn (Z.to_nat f) rest in
-          match rest' with
-          | [] => Some t
-          | _ => frags_ok rid sn f len (k + 1) t rest'
-          end
-        else None
+  | VFrag fr :: t =>
+      if (of_rid fr =? rid) && (of_sn fr =? sn) && (of_start fr =? k) && (of_nsub fr =? 1)
+         && (of_fsize fr =? f) && (of_dsize fr =? len)
+         && od_matches (firstn (Z.to_nat f) rest) (of_data fr) && (0 <? od_len (of_data fr))
+      then
+        let rest' := skipn (Z.to_nat f) rest in
+        match rest' with
+        | [] => Some t
+        | _ => frags_ok rid sn f len (k + 1) t rest'
+        end
       else None
   | _ => None
   end.
 
-Definition sent_ok_one (rid sn f : Z) (p : bytes) (ws : list wire) : option (list wire) :=
+Definition sent_ok_one (rid sn f : Z) (p : bytes) (ws : list owire) : option (list owire) :=
   if blen p <=? f then
     match ws with
-    | WData r s d :: t => if (r =? rid) && (s =? sn) && bytes_eqb d p then Some t else None
+    | VData r s d :: t => if (r =? rid) && (s =? sn) && od_matches p d then Some t else None
     | _ => None
     end
   else frags_ok rid sn f (blen p) 1 ws p.
 
-Definition sent_ok (nreaders sn f : Z) (p : bytes) (ws : list wire) : bool :=
+Definition sent_ok (nreaders sn f : Z) (p : bytes) (ws : list owire) : bool :=
   match sent_ok_one 1 sn f p ws with
   | Some t =>
       if 2 <=? nreaders then
@@ -140,24 +169,25 @@ Definition sent_ok (nreaders sn f : Z) (p : bytes) (ws : list wire) : bool :=
   | None => false
   end.
 
-Definition frag_numbers (ws : list wire) : list Z :=
-  flat_map (fun w => match w with WFrag fr => [fr_start fr] | _ => [] end) ws.
+Definition frag_numbers (ws : list owire) : list Z :=
+  flat_map (fun w => match w with VFrag fr => [of_start fr] | _ => [] end) ws.
 
 Definition subset (a b : list Z) : bool := forallb (fun x => zmem x b) a.
 
 (* walk ops and observations together.
-   st = (next sn, highest NACK_FRAG count the writer has been given, last reply seen) *)
-Fixpoint walk (rel : bool) (nreaders f : Z) (ws : list bytes) (ops : list op) (os : list obs)
+   sn = next sequence number, last = highest NACK_FRAG count the writer has been given so far,
+   reply = the reader's last reply as the implementation produced it *)
+Fixpoint walk (rel : bool) (nreaders f : Z) (ws : list bytes) (ops : list op) (os : list oobs)
          (sn last : Z) (reply : option (acknack * option nackfrag)) : bool :=
   match ops, os with
   | [], [] => true
-  | OWrite p :: t, BSent x :: t' =>
+  | OWrite p :: t, VSent x :: t' =>
       sent_ok nreaders sn f p x && walk rel nreaders f ws t t' (sn + 1) last reply
-  | ODeliver _ _ _ :: t, BCount _ :: t' => walk rel nreaders f ws t t' sn last reply
-  | OForeign _ :: t, BCount _ :: t' => walk rel nreaders f ws t t' sn last reply
-  | OHb _ _ _ _ :: t, BReply x :: t' =>
+  | ODeliver _ _ _ :: t, VCount _ :: t' => walk rel nreaders f ws t t' sn last reply
+  | OForeign _ :: t, VCount _ :: t' => walk rel nreaders f ws t t' sn last reply
+  | OHb _ _ _ _ :: t, VReply x :: t' =>
       walk rel nreaders f ws t t' sn last (match x with Some y => Some y | None => reply end)
-  | ONackFrag :: t, BResp x _ :: t' =>
+  | ONackFrag :: t, VResp x _ :: t' =>
       (* (4) a NACK_FRAG the reader produced must not be filtered as a duplicate when the writer has
          processed no NACK_FRAG before, and (3) the fragments resent are the requested ones *)
       (match reply with
@@ -176,7 +206,7 @@ Fixpoint walk (rel : bool) (nreaders f : Z) (ws : list bytes) (ops : list op) (o
        end)
       && walk rel nreaders f ws t t' sn
               (match reply with Some (_, Some nf) => Z.max last (Z.max 1 (n_count nf)) | _ => last end) reply
-  | OForged count s base set :: t, BResp x _ :: t' =>
+  | OForged count s base set :: t, VResp x _ :: t' =>
       (* (3) NACK_FRAG numbering: a fresh NACK_FRAG for fragments N of an available fragmented sample is
          answered with exactly the fragments N (as a set) *)
       (if rel && (last <? count) then
@@ -190,12 +220,12 @@ Fixpoint walk (rel : bool) (nreaders f : Z) (ws : list bytes) (ops : list op) (o
          end
        else true)
       && walk rel nreaders f ws t t' sn (Z.max last count) reply
-  | OAckNack :: t, BResp _ _ :: t' => walk rel nreaders f ws t t' sn last reply
+  | OAckNack :: t, VResp _ _ :: t' => walk rel nreaders f ws t t' sn last reply
   | _, _ => false
   end.
 
-Definition all_delivered (ws : list bytes) (ch : list (Z * bytes)) : bool :=
-  list_eqb change_eqb ch (combine (map (fun k => Z.of_nat k + 1) (seq 0 (length ws))) ws).
+Definition all_delivered (ws : list bytes) (ch : list (Z * odata)) : bool :=
+  list_matches change_matches (combine (map (fun k => Z.of_nat k + 1) (seq 0 (length ws))) ws) ch.
 
 Definition o_identity (c : C05_case) : bool :=
   match c_out c with
@@ -237,7 +267,7 @@ Definition has_forged (ops : list op) : bool :=
 (* the implementation's own trace shows a reader NACK_FRAG with count 0 *)
 Definition impl_nf_count0 (c : C05_case) : bool :=
   match c_out c with
-  | Ok (os, _) => existsb (fun o => match o with BReply (Some (_, Some nf)) => n_count nf <=? 0 | _ => false end) os
+  | Ok (os, _) => existsb (fun o => match o with VReply (Some (_, Some nf)) => n_count nf <=? 0 | _ => false end) os
   | _ => false
   end.
 Definition model_panic_site (c : C05_case) : Z :=
